@@ -46,6 +46,14 @@ def mutants(data, rng, n, others=()):
             b = bytearray(data)
             b[i] = v
             add(b)
+    # small non-zero bytes are counts and short lengths: make them zero (empty lists, zero certificates)
+    # with and without the now unannounced rest
+    for i in spots:
+        if 0 < data[i] <= 16:
+            b = bytearray(data)
+            b[i] = 0
+            add(b)
+            add(bytes(b[:i + 1]) + b'\x00' * 4)
     # letter case, one letter at a time (text protocols: where does case matter?)
     for i in spots:
         if 0x41 <= data[i] <= 0x5a or 0x61 <= data[i] <= 0x7a:
